@@ -31,13 +31,13 @@ ASSUMPTIONS = ['vf.ball complex enclosures are rigorous (self-test python -m vf.
                '3p+300 bits agree to 2^-(p+40) of the modulus); tier: consensus enclosure, not a proof',
                'containment is tested at sample points only -- a failure strictly between the samples is not seen']
 SHARD_TIMEOUT = {'quick': 600, 'thorough': 3000}
-LEVEL_TEXT = ('exploration: ~6*10^4 (quick) / ~6*10^5 (thorough) rectangle operations on the real code, each result tested '
+LEVEL_TEXT = ('exploration: ~1.1*10^5 (quick) / ~6.4*10^5 (thorough) rectangle operations on the real code, each result tested '
               'against rigorous enclosures of the exact value at ~15 sample points (pairs for binary operations) of the inputs')
 LEVEL_NOTE = ('trusted base: vf/ball.py, vf/exactq.py, CPython ints; gamma family decided by a consensus enclosure '
               '(classes .../tier:consensus-enclosure); only sampled points of each rectangle are tested')
 TECHNIQUE = 'runtime oracle monitor on rectangle results + StoreHook on stored rectangles + ReturnTap on directed primitives'
 
-CASES = {'quick': 7000, 'thorough': 60000}
+CASES = {'quick': 7000, 'thorough': 40000}
 NSHARDS = 16
 OPS = (['add', 'sub', 'mul', 'div'] * 3 + ['pow_int'] * 4 + ['pow_complex'] * 3 + ['abs'] * 2 + ['unary'] + ['exp'] * 3 +
        ['log'] * 4 + ['sin', 'cos'] * 3 + ['gamma'] * 4)
@@ -166,6 +166,7 @@ def run_checked(ctx, op, prec, call, rects, oracles, variant='', consensus_tier=
             iv.prec = old
     except Exception as ex:
         ctx.sm.take()
+        ctx.last_exc = ex
         rec.case(ident, False, cls='%s/raised:%s' % (op, type(ex).__name__))
         rec.event('operation raised (no interval returned)')
         return None
@@ -220,6 +221,8 @@ def run_checked(ctx, op, prec, call, rects, oracles, variant='', consensus_tier=
                     found = key
             elif verdict == 'undecided':
                 rec.undecided('enclosure straddles an endpoint at the precision cap', dict(case, sample=sample, info=det))
+            elif isinstance(det, str) and det.startswith('consensus'):
+                rec.undecided('gamma family: ' + det, dict(case, sample=sample))
             else:
                 rec.event('sample points without finite enclosure (skipped)')
     if consensus_tier:
